@@ -41,6 +41,10 @@ def configs(tier, seed):
         # RELAY_CACHE_METRICS with no destination up: the daemon's self-metrics wait in the relay buffer and are stored
         # from inside the cacheSpaceAvailable -> resumeReceivingMetrics dispatch, i.e. re-entrantly during a drain
         cfgs.append(dict(name='max%d/fc%d/relaybuf-%s' % (mx, fc, sts[-1]), max=mx, fc=fc, strategy=sts[-1], pipeline=True, relaybuf=True))
+  # the daemon's own statistics are datapoints too: instrumentation ticks on the reactor thread while the cache is at its limit
+  for k, mx in enumerate((1, 3, 6, 20)):
+    for fc in (True, False):
+      cfgs.append(dict(name='max%d/fc%d/ticks-%s' % (mx, fc, strategies[(k + fc) % 6]), max=mx, fc=fc, strategy=strategies[(k + fc) % 6], ticks=True))
   # timesorted with a lag: series holding points on both sides of now - lag when they are drained
   for mx in (3, 5):
     for fc in (True, False):
@@ -127,8 +131,12 @@ def oracle(h, world):
         out.append(('accept-size', 'accepted new datapoint changed size %d -> %d' % (b[2], a[2])))
   if getattr(h, 'self_prefix', None):
     nsig = h.all_signals.count('overflow')       # refusals of the daemon's own (re-injected) self-metrics are signalled too
-  if h.stats.get('cache.overflow', 0) != nsig:
-    out.append(('overflow-counter', 'cache.overflow counter %r but %d overflow signals observed' % (h.stats.get('cache.overflow', 0), nsig)))
+  counted = h.stats.get('cache.overflow', 0) + getattr(h, 'overflow_recorded', 0)      # what instrumentation ticks already reported
+  if counted != nsig:
+    out.append(('overflow-counter', 'cache.overflow counter %r but %d overflow signals observed' % (counted, nsig)))
+  if getattr(h, 'tick_silent', 0):
+    out.append(('self-metric-dropped-silently', '%d of the %d statistics an instrumentation tick recorded for the cache neither reached store() nor '
+                'raised the overflow signal (e.g. %r at size %d)' % (h.tick_silent, h.tick_records, h.silent_self_metric[0], h.silent_self_metric[2])))
   out.extend(cachesim.check_conservation(h))
   return out
 
@@ -218,12 +226,17 @@ def run_config(cfg, res):
       for _ in range(r.randint(1, 4)):
         ops.insert(r.randrange(0, len(ops) + 1), ('relaybuf',))
       ndr += 2
+    if cfg.get('ticks'):
+      for _ in range(r.randint(1, 3)):
+        ops.insert(r.randrange(len(ops) // 2, len(ops) + 1), ('tick',))
+      ndr += 1
     seen = set()
     hk = hash(repr(ops))
 
     def one(policy, desc):
       h = world.run(ops, ('drains', ndr), policy=policy, snap_stores=True)
       res.count('schedules_executed')
+      res.count('self_metrics_recorded_by_ticks', getattr(h, 'tick_records', 0))
       res.count('bound_evaluations', h.steps)
       res.count('refusals_observed', sum(1 for s in h.stores if s['refused']))
       res.count('undisturbed_store_snapshots', sum(1 for s in h.stores if s.get('undisturbed')))
